@@ -3,3 +3,5 @@ import Dalek.Props.C01.Field51
 import Dalek.Props.C01.Field26
 import Dalek.Props.C01.Pow2k
 import Dalek.Props.C01.FieldChains
+import Dalek.Props.C01.Bytes51
+import Dalek.Props.C01.Bytes26
